@@ -8,6 +8,7 @@ import (
 	"os"
 	"path/filepath"
 	"strings"
+	"time"
 
 	"code.gopub.tech/tpl/exp"
 	"code.gopub.tech/tpl/html"
@@ -35,7 +36,7 @@ func hostileData(r *Rng) any {
 		"boom": func() int { panic("boom") }, "fail": func() (int, error) { return 0, errors.New("failed") },
 		"f1": func(a int) int { return a }, "fv": func(a ...any) int { return len(a) }, "f0": func() {}, "f3": func() (int, int, int) { return 1, 2, 3 },
 		"fe": func() error { return errors.New("x") }, "c": complex(1, 2), "name": "n", "s1": "<x>", "c1": true, "c2": false,
-		"fname": "f1", "num": int64(2), "word": "wörd", "emp": []any{}, "m1": map[string]any{"k": "v"}, "r1": "<b>",
+		"tnil": (*time.Time)(nil), "dur": time.Duration(5), "fname": "f1", "num": int64(2), "word": "wörd", "emp": []any{}, "m1": map[string]any{"k": "v"}, "r1": "<b>",
 		"ident": func(a any) any { return a }, "one": func() int64 { return 1 },
 		"rec": func(k int64) int64 { return k }, "recb": func(k int64, b bool) bool { return b }, "recs": func(k int64, s string) string { return s },
 	}
@@ -56,7 +57,7 @@ func hostileData(r *Rng) any {
 	return d
 }
 
-var hostileExprPool = []string{"boom()", "fail()", "f1(1)", "f1('a')", "fv(xs...)", "fv(1, nil)", "f0()", "f3()", "fe()", "c + 1", "-c", "sp", "'a' + sp", "unc == unc", "xs == xs", "m == m",
+var hostileExprPool = []string{"boom()", "fail()", "f1(1)", "f1('a')", "fv(xs...)", "fv(1, nil)", "f0()", "f3()", "fe()", "c + 1", "-c", "sp", "'a' + sp", "tnil", "string(sp)", "string(tnil)", "print(sp)", "unc == unc", "xs == xs", "m == m",
 	"boom == boom", "st == st", "pt == pt", "np.Name", "np.Hello()", "np.PtrM()", "*np", "*pt", "&pt", "<-xs", "xs[5]", "xs[-9]", "xs[1:0]", "xs[0:9]", "arr[0:1]", "ns[1:2:1]", "mi[1]", "mi.a",
 	"m.k.x.y", "nilv.a", "nilv()", "s()", "1/0", "1%0", "1<<-1", "1>>-1", "-9223372036854775807-1", "9223372036854775807+1", "9223372036854775808", "1e999", "0x", "len(nilv)", "len(1)", "cap(s)",
 	"int('a')", "int8(300)", "uint(-1)", "float64('x')", "string(xs)", "bytes(1)", "runes(nilv)", "duration('x')", "isNull(1)", "isNull(np)", "notNull(xs)", "print(sp)", "printf('%d', 'x')", "printf(1)",
@@ -124,6 +125,12 @@ func fuzzOne(r *Rng) (kind string, input []byte, verdict string) {
 		}
 		if r.Chance(15) {
 			ts.Files[0][1] += strings.Repeat("<div>", 200+r.Intn(800)) + r.Pick([]string{"", "</p>", "x"})
+		}
+		if r.Chance(35) {
+			// hostile values at every kind of insertion point: text, raw, dynamic attribute, condition, with, fragment name
+			v := r.Pick([]string{"sp", "tnil", "unc", "c", "boom", "f0", "mi", "np", "dur", "xs", "m", "fe()", "ident(sp)", "ident(tnil)"})
+			ts.Files[0][1] += r.Pick([]string{`<i :text="${` + v + `}"></i>`, `<i :raw="${` + v + `}"></i>`, `<i :title="a${` + v + `}b"></i>`, `<i :if="${` + v + `}"></i>`,
+				`<i :with="w := ${` + v + `}" :text="${w}"></i>`, `<i :insert="${` + v + `}"></i>`, `<i :range="_, q : xs" :text="${` + v + `}${q}"></i>`, `<i :text="${'s' + ` + v + `}"></i>`})
 		}
 		if r.Chance(10) {
 			ts.Files[0][1] += `<i :text="${` + r.Pick(hostileExprPool) + `}"></i><p :range="i, x : ` + r.Pick([]string{"mi", "unc", "sp", "boom()", "st", "np", "c", "bytes"}) + `" :text="${x}"></p>`
